@@ -282,8 +282,16 @@ def simple_fixture(name, params, fmt=None):
                 else:
                     ids.append(fmt_default.format(name=name, value=p))
     else:
-        # Use provided `fmt` for everything
-        ids = [fmt.format(name=name, value=p) for p in params]
+        # Use provided `fmt` for everything, unwrapping `skipif` decorators
+        # as for the default formats
+        ids = []
+        for p in params:
+            if (
+                isinstance(p, _pytest.mark.MarkDecorator)
+                and p.name == 'skipif'
+            ):
+                p = p.args[1]
+            ids.append(fmt.format(name=name, value=p))
 
     wrapper = pytest.fixture(scope='module', ids=ids, params=params)
     return wrapper(lambda request: request.param)
